@@ -43,6 +43,7 @@ type State struct {
 	heaps     map[string]string
 	now       string
 	loopEpoch bool
+	prev      *State // state before a havoc-everything call: ghost locations keep their value
 }
 
 func (s State) clone() State {
@@ -80,6 +81,8 @@ type Path struct {
 	dec0      string
 	lastAppend *appendInfo
 	preserved *State
+	loopStart map[string]Val
+	loopStartState State
 }
 
 type FnCtx struct {
@@ -213,7 +216,15 @@ func (p *Path) heapIn(st *State, name string) string {
 		}
 		return t
 	}
-	return p.baseHeap(name, st.epoch, st.epochNow)
+	t := name + "_" + st.epoch
+	first := !p.emitted["heap:"+t]
+	p.declHeap(t, name, st.epochNow)
+	if first && st.prev != nil && strings.HasPrefix(name, "Mem_") {
+		// arbitrary code cannot touch ghost state
+		prevH := p.heapIn(st.prev, name)
+		p.assume(fmt.Sprintf("(forall ((a Ref)) (! (=> (or (= (ftag a) (- 4)) (>= (ftag a) 1000000)) (= (select %s a) (select %s a))) :pattern ((select %s a))))", t, prevH, t))
+	}
+	return t
 }
 
 func (p *Path) baseHeap(name, epoch, now string) string {
@@ -378,8 +389,20 @@ func (p *Path) pureDef(instr ssa.Instruction) (string, bool) {
 		p.absorb(q)
 		return r.T, true
 	case *ssa.UnOp:
-		if i.Op == token.MUL || i.Op == token.ARROW {
+		if i.Op == token.ARROW {
 			return "", false
+		}
+		if i.Op == token.MUL {
+			// a load from a heap this function never writes reads the entry heap
+			t := i.Type()
+			if !isScalar(t) {
+				return "", false
+			}
+			hn := p.fx.env.memHeap(t)
+			if p.fx.modAll || p.fx.writesAll || p.fx.mayWrite[hn] {
+				return "", false
+			}
+			return fmt.Sprintf("(select %s %s)", p.heapIn(&p.entry, hn), p.val(i.X).T), true
 		}
 		q := p.sub()
 		r := q.unop(i, true)
@@ -407,7 +430,7 @@ func (p *Path) pureDef(instr ssa.Instruction) (string, bool) {
 		ix := p.val(i.Index)
 		switch i.X.Type().Underlying().(type) {
 		case *types.Slice:
-			return fmt.Sprintf("(idx (sl.arr %s) (+ (sl.off %s) %s))", x.T, x.T, ix.T), true
+			return elemAddr(x.T, ix.T), true
 		case *types.Pointer:
 			return fmt.Sprintf("(idx %s %s)", x.T, ix.T), true
 		}
